@@ -59,7 +59,29 @@ fn field_checks<F: PrimeField + Ord>(ctx: &Ctx, fc: &FieldCase<F>) {
     let name = fc.name;
     let p = &fc.p;
     let mut rng = ctx.rng(name);
-    let ints = alpha::field_values(p, fc.limbs, &mut rng, ctx.tier.pick(16, 420));
+    let mut ints = alpha::field_values(p, fc.limbs, &mut rng, ctx.tier.pick(16, 420));
+    {
+        // values whose INTERNAL (Montgomery) form has zero / all-ones limbs or sits on a limb boundary: a = X * R^-1 mod p
+        let rr = alpha::pow2(64 * fc.limbs) % p;
+        let rinv = rr.modpow(&(p - 2u32), p);
+        let mut raws: Vec<BigUint> = vec![];
+        for l in 0..fc.limbs {
+            let ones = BigUint::from(u64::MAX) << (64 * l);
+            raws.push(ones.clone());
+            raws.push(&ones + 1u32);
+            raws.push(BigUint::from(1u32) << (64 * l));
+            if l + 1 < fc.limbs {
+                raws.push(&ones | (BigUint::from(u64::MAX) << (64 * (l + 1))));
+            }
+        }
+        raws.push(alpha::pow2(64 * (fc.limbs - 1)) - 1u32);
+        for x in raws {
+            if &x < p {
+                ints.push((x * &rinv) % p);
+            }
+        }
+        ints = alpha::dedup(ints);
+    }
     let els: Vec<F> = ints.iter().map(|x| F::from_repr(repr_of::<F::Repr>(x)).expect("alphabet member not reduced")).collect();
     let n = ints.len() as u64;
     ctx.require(n >= 40, "field alphabet too small");
